@@ -127,7 +127,7 @@ PROPS = {
         rule=("rapid sequences over all constructors; values from hx.JSONValue (null, bool, special and random finite floats, special and random strings, arrays, objects, depth<=2) and Go-native numbers for local updates. "
               "Non-trivial: sequence containing at least one value whose JSON type differs from the format's. Distinct by (constructor, sequence)."),
         assumptions=["numbers supplied are finite (NaN/Inf only occur as strings)", "typed getters are only called on readable characteristics"],
-        essential_classes=["same-composite-twice", "format:string", "format:float", "format:uint8", "format:bool", "format:tlv8", "format:int32", "write-only", "bounds-redeclared", "composed:service", "composed:accessory"],
+        essential_classes=["same-composite-twice", "format:string", "format:float", "format:uint8", "format:bool", "format:tlv8", "format:int32", "write-only", "bounds-redeclared", "composed:service", "composed:accessory", "value-from-read-callback"],
         jobs=[
             dict(test="TestC12Composed", kind="plain", shards={Q: 4, T: 8}),
             dict(test="TestC12Matrix", kind="plain", shards=4),
@@ -339,7 +339,7 @@ PROPS = {
         rule=("history machine: first start with variant 0..5, then about 30 actions over {set values, restart (same/other variant, optional database pairing change while stopped), pair through protocol, unpair through /pairings}; codes: quick 200k-stride sample + 76 boundary codes, thorough all 10^8 in 16 shards (one evidence record per block of 1000 codes); "
               "strings: 6 generator families; URIs: code x category 0..255 x 16 flag sets x setup id. Non-trivial (histories): at least one structural change, one value change and three starts. Distinct by history / block / string / URI tuple."),
         assumptions=["the accessor hook reflects what is advertised", "codes are given without dashes to ValidatePin"],
-        essential_classes={Q: ["history", "restart:structure-changed", "restart:same-structure", "codes:eight-digit", "strings:non-ascii-digits", "uri:flags=2", "transport-pin", "pair:database", "values-restored-before-start"],
+        essential_classes={Q: ["history", "restart:structure-changed", "restart:same-structure", "codes:eight-digit", "strings:non-ascii-digits", "uri:flags=2", "transport-pin", "pair:database", "values-restored-before-start", "storage-path:special-characters"],
                            T: ["history", "restart:structure-changed", "restart:same-structure", "codes:eight-digit", "strings:non-ascii-digits", "uri:flags=2", "transport-pin", "pair:database", "pair:protocol", "unpair:protocol", "unpair:database", "paired-controller-verifies-after-restart"]},
         exhaustive={Q: False, T: False},
         jobs=[
